@@ -21,7 +21,17 @@ Correspondence and oracles (all run the real atomica code):
   run_stream   mode B (vlib.engine_corr): every step of generated models with duration groups, junctions inside
                groups, extra outflows, transfers between groups of different length vs one exact `Engine.step`;
                occupancy oracle (`engine_occupancy_bound_general`).
+  group_shift_oracle  (C05Groups.lean: `group_step_junctions`, `engine_group_release_exact_junctions`) on the
+               implementation's arrays, for every duration group (timed compartments + duration-group junctions joined by
+               TimedLinks) whose closedness hypothesis `ClosedGroupJ` holds (evaluated by the Lean driver, request `egroupj` =
+               `Engine.closedGroupJCheck`, proved equivalent to the hypothesis): at every step
+               sum_members row r (t+1) = sum_members row r+1 (t); last row = untimed inflow; sum flush links = sum_members row 0;
+               group flush (t) = group arrivals (t-n).  Installed on `engine_corr.oracles` (so it runs on every model of the
+               stream, next to mode B), on the models of run_groups / run_release, and on a hand-built library of groups with
+               junctions inside (`run_groupsj`: fans of 2-3 outflows with proportions summing to < 1, = 1, > 1, residual
+               junctions, two chained junctions, several timed inflows into one junction, float-hazard durations, one row).
 """
+import collections
 import math
 import random as _random
 import sys
@@ -33,7 +43,7 @@ from vlib import core, engine_corr, genfw
 from vlib.core import q, unq
 
 PROPERTY = "C05"
-LEAN_MODS = ["AtomicaProofs.Properties.C05"]
+LEAN_MODS = ["AtomicaProofs.Properties.C05", "AtomicaProofs.Properties.C05Groups"]
 THEOREMS = [
     "Atomica.C05.rows_spec",
     "Atomica.C05.rows_spec_band",
@@ -73,6 +83,19 @@ THEOREMS = [
     "Atomica.C05.arrivalsAll_eq_inAll",
     "Atomica.C05.group_step",
     "Atomica.C05.engine_group_release_exact",
+    "Atomica.C05.ClosedGroup.toJ",
+    "Atomica.C05.closedGroupJCheck_iff",
+    "Atomica.C05.ClosedGroupJ.of_fed",
+    "Atomica.C05.group_core",
+    "Atomica.C05.groupFlowInv_resolve",
+    "Atomica.C05.groupFlowInv_balanceOne",
+    "Atomica.C05.group_step_junctions",
+    "Atomica.C05.group_member_core",
+    "Atomica.C05.group_rows_recorded",
+    "Atomica.C05.engine_group_release_exact_junctions",
+    "Atomica.C05.exJ_closed",
+    "Atomica.C05.exJR_closed",
+    "Atomica.C05.raw_rule_fails",
 ]
 TRUSTED = [
     "the row count is compared on the float quotient the implementation forms: D = parameter.vals[0]*timescale*scale_factor and dt are sent to the driver as the exact rationals of those doubles; quotients within 1e-12 of the band edge k+1e-9 are counted as ambiguous",
@@ -81,17 +104,22 @@ TRUSTED = [
 ]
 ASSUMPTIONS = [
     "duration parameters are finite and constant in time (the implementation asserts this); NaN durations are not modelled",
-    "closed-form theorems for single compartments (engine_keyring_traj, engine_flush_exact, engine_release_exact, engine_occupancy_bound) are for timed compartments whose inflow is untimed; duration groups are covered by group_step / engine_group_release_exact (groups closed under direct TimedLinks, no junction inside, no other outflow), by the one-step theorems (timed_step, tlink_keeps_row, group_mismatch_total) and engine_occupancy_bound_general in general; groups with junctions inside and with extra outflows are covered by mode B and the group impulse oracle on the implementation only",
+    "closed-form theorems for single compartments (engine_keyring_traj, engine_flush_exact, engine_release_exact, engine_occupancy_bound) are for timed compartments whose inflow is untimed; duration groups are covered by group_step / engine_group_release_exact (groups closed under direct TimedLinks, no other outflow) and by group_step_junctions / engine_group_release_exact_junctions (closed groups WITH junctions inside: plain junctions, whose stated proportions are normalised, and residual junctions; hypotheses ClosedGroupJ, wfGroupRows, resCheck, proportions on the group's junction links >= 0), by the one-step theorems (timed_step, tlink_keeps_row, group_mismatch_total) and engine_occupancy_bound_general in general; groups with extra outflows out of the group are covered by mode B and the group impulse oracle on the implementation only",
 ]
 RULE = (
     "rows: table k<=60 x 12 step sizes x float formations of D (k*dt, k/12, k/52, k*0.1, (k+0.5)*dt, 0.5*dt, 0) (quick: the hazard cases + a random sample), non-trivial = quotient not an exact integer in binary; "
     "keyring/groups: hand-built small models with random time-varying inflow, pulse step, ordinary outflow (incl. > 1 per step), non-trivial = more than one row; "
-    "release/stream: vlib.genfw.random_spec with timed focus (1-2 duration groups of 1-3 compartments, group junctions, durations per population), non-trivial as in engine_corr.run_stream"
+    "release/stream: vlib.genfw.random_spec with timed focus (1-2 duration groups of 1-3 compartments, group junctions incl. the rich family gj_rich, closed groups (stay_in_group), durations per population), non-trivial as in engine_corr.run_stream; "
+    "groupsj: hand-built closed groups with junctions inside (shapes fan/chain/multi x proportion sums < 1, = 1, > 1, residual, hazard durations, one row) with random inflow/move rates, non-trivial = more than one row and people really passed through a junction of the group; "
+    "group_shift_oracle: every duration group of every model above; a group counts (gshift.hyp_held.*) only if the driver evaluates ClosedGroupJ = true and the other hypotheses hold"
 )
 EXPECTED_BRANCHES = [
     "rows.integer_quotient", "rows.noninteger", "rows.short", "rows.zero", "rows.float_dust_above", "rows.float_dust_below", "rows.junction_link",
     "keyring.pure", "keyring.outflow", "keyring.rescale", "keyring.one_row", "impulse.checked",
     "group.direct", "group.junction", "group.restart",
+    "gshift.hyp_held.nojunction", "gshift.hyp_held.junction", "gshift.hyp_held.resjunction", "gshift.moved_through_junction",
+    "gshift.junction_sum_lt1", "gshift.junction_sum_eq1", "gshift.junction_sum_gt1", "gshift.junction_outflows_2", "gshift.junction_outflows_3",
+    "gshift.chain", "gshift.multi_inflow", "gshift.steps_checked", "groupsj.fan", "groupsj.chain", "groupsj.multi",
     "release.exact", "release.bounded", "release.skipped_timed_inflow",
     "assign.runs", "assign.group_member",
     "has.timed", "has.timedlink", "has.multirow", "has.junction", "has.transfer",
@@ -100,6 +128,7 @@ EXPECTED_BRANCHES = [
 TABLE_DTS = [1.0, 0.5, 0.25, 0.2, 0.1, 1 / 12, 1 / 52, 1 / 365, 0.3, 0.7, 0.05, 1 / 24]
 HAZARDS = [("k*dt", 3, 0.1), ("k/12", 5, 1 / 12), ("k*dt", 6, 0.1), ("k*dt", 7, 0.1), ("k*dt", 3, 0.7), ("k/52", 7, 1 / 52), ("k*0.1", 3, 0.1), ("k*dt", 12, 0.3)]
 ROWS_KEY = {"api": "TimedCompartment.preallocate", "case": "ceil-float"}
+DYN_KEY = {"api": "TimedCompartment.preallocate", "case": "duration-varies-in-time"}
 
 
 # ----------------------------------------------------------------------------------------------------------
@@ -336,13 +365,19 @@ def run_rows(ctx):
 
 def rows_of_model(form, k, dt, junction=False):
     """replay helper: (D, dt, rows allocated, rows specified)"""
-    m = genfw.run(spec_rows(form_D(form, k, dt), dt, junction=junction))
-    tcs = timed_comps(m)
-    D = impl_duration(tcs[0])
     from atomica import model as M
 
+    fw, data, parset, settings = genfw.build(spec_rows(form_D(form, k, dt), dt, junction=junction))
+    m = M.Model(settings, fw, parset)  # built (rows are allocated), not processed: a row mismatch may make `process` raise
+    tcs = timed_comps(m)
+    D = impl_duration(tcs[0])
     jl = [l._vals.shape[0] for pop in m.pops for l in pop.links if isinstance(l, M.TimedLink) and isinstance(l.source, M.JunctionCompartment)]
-    return {"D": D, "dt": m.dt, "D/dt": D / m.dt, "rows_allocated": [c._vals.shape[0] for c in tcs], "junction_link_rows": jl, "rows_specified": spec_rows_of(D, m.dt)[0]}
+    info = {"D": D, "dt": m.dt, "D/dt": D / m.dt, "rows_allocated": [c._vals.shape[0] for c in tcs], "junction_link_rows": jl, "rows_specified": spec_rows_of(D, m.dt)[0]}
+    try:
+        m.process()
+    except Exception as e:
+        info["process_raises"] = f"{type(e).__name__}: {str(e)[:100]}"
+    return info
 
 
 # ----------------------------------------------------------------------------------------------------------
@@ -520,8 +555,15 @@ def check_group(ctx, case):
     infl1 = list(case["inflow"])
     infl1[s] = infl1[s] + pulse / case["dt"]
     kw = dict(mode=mode, move=case["move"], back=case.get("back", 0.0), D2=case.get("D2"), jprop=case.get("jprop", 1.0))
-    m0 = genfw.run(spec_group(case["D"], case["dt"], case["nsteps"], case["inflow"], **kw))
-    m1 = genfw.run(spec_group(case["D"], case["dt"], case["nsteps"], infl1, **kw))
+    try:
+        m0 = genfw.run(spec_group(case["D"], case["dt"], case["nsteps"], case["inflow"], **kw))
+        m1 = genfw.run(spec_group(case["D"], case["dt"], case["nsteps"], infl1, **kw))
+    except Exception as e:  # a hand-built duration group is inside the property's quantifier: it must build and run
+        cause = repr(e.__cause__)[:160] if e.__cause__ is not None else ""
+        ctx.case({"oracle": "group-impulse", "mode": mode, "dt": case["dt"], "D": case["D"], "raises": True}, nontrivial=True)
+        ctx.violation({"api": "Model.process", "oracle": "group-impulse", "mode": mode, "when": "raises"},
+                      f"duration group (mode {mode}, duration {case['D']!r}, dt={case['dt']!r}): the model cannot be built/run: {type(e).__name__}: {str(e)[:120]} {cause}", {"how": "group", "case": case})
+        return
     t00 = get_comp(m0, "t00")
     D = impl_duration(t00)
     n, amb = spec_rows_of(D, m0.dt)
@@ -532,6 +574,7 @@ def check_group(ctx, case):
     replay = {"how": "group", "case": case}
     P_ = (link_vals(m1, "src", "t00") - link_vals(m0, "src", "t00"))[s]
     ctx.case({"oracle": "group-impulse", "mode": mode, "n": n, "s": s, "dt": case["dt"], "move": case["move"]}, nontrivial=n > 1)
+    apply_group_shift(ctx, m1, genfw.extract_net(m1), replay, label=f"hand-built group ({mode})")
     if n_impl != n:
         kcls, _ = classify_quotient(D, m0.dt)
         ctx.violation(dict(ROWS_KEY) if kcls.startswith("float_dust") else {"api": "TimedCompartment.preallocate", "case": kcls},
@@ -587,6 +630,369 @@ def run_groups(ctx, n):
                 "s": rr.randint(0, 3), "pulse": rr.choice([1.0, 100.0]), "move": rr.choice([0.2 / dt, 0.5 / dt, 0.9 / dt, 1.0 / dt, 3.0 / dt]), "back": rr.choice([0.0, 0.0, 0.3 / dt]),
                 "D2": rr.choice([2, 3, 5]) * dt, "jprop": [0.5, 1.0, 0.8, 2.0][(i // 4) % 4]}
         check_group(ctx, case)
+
+
+# ----------------------------------------------------------------------------------------------------------
+# group_shift_oracle: closed duration groups WITH JUNCTIONS INSIDE keep everybody's elapsed time
+# (theorems group_step_junctions / engine_group_release_exact_junctions of C05Groups.lean, on the implementation's arrays)
+# ----------------------------------------------------------------------------------------------------------
+def duration_groups(net):
+    """candidate groups: connected components of {timed compartments, duration-group junctions} joined by TimedLinks -> [(G, J)]"""
+    kinds = net["kinds"]
+    nC = len(kinds)
+    node = [kinds[c] == "t" or (kinds[c] in "jr" and bool(net["jgroup"][c])) for c in range(nC)]
+    parent = list(range(nC))
+
+    def find(a):
+        while parent[a] != a:
+            parent[a] = parent[parent[a]]
+            a = parent[a]
+        return a
+
+    for l in range(len(net["links"])):
+        a, b = net["src"][l], net["dst"][l]
+        if net["tlink"][l] and node[a] and node[b]:
+            parent[find(a)] = find(b)
+    groups = {}
+    for c in range(nC):
+        if node[c]:
+            groups.setdefault(find(c), []).append(c)
+    out = []
+    for _, cs in sorted(groups.items()):
+        G = [c for c in cs if kinds[c] == "t"]
+        J = [c for c in cs if kinds[c] in "jr"]
+        if G:
+            out.append((G, J))
+    return out
+
+
+def closed_py(net, G, J):
+    """the clauses of `ClosedGroupJ` evaluated in Python (cross-check of the driver's `egroupj`, and the reason when it fails) -> (n, reason|None)"""
+    Gs, Js = set(G), set(J)
+    rows = sorted({net["nrows"][c] for c in G})
+    n = net["nrows"][G[0]]
+    if len(rows) != 1:
+        return n, "rows_differ"
+    for l in range(len(net["links"])):
+        a, b = net["src"][l], net["dst"][l]
+        inside = b in Gs or b in Js
+        if a in Js:
+            if net["lrows"][l] != n:
+                return n, "junction_link_rows"
+            if not inside:
+                return n, "junction_feeds_outside"
+        if a in Gs and not net["isflush"][l] and not (net["tlink"][l] and inside):
+            return n, "member_outflow_leaves_group"
+        if b in Gs and net["tlink"][l] and not (a in Gs or a in Js):
+            return n, "timed_inflow_from_outside"
+        if b in Js and not (a in Gs or a in Js):
+            return n, "junction_fed_from_outside"
+    return n, None
+
+
+def group_shift_oracle(m, net, rtol=1e-9):
+    """
+    For every duration group of `m` that satisfies the hypotheses of `group_step_junctions` (closedness evaluated by the Lean
+    driver), at every step, on the implementation's own arrays:
+        rows      sum_members row r (t+1) = sum_members row r+1 (t)            (r + 1 < n)
+        last-row  sum_members last row (t+1) = sum_members max(0, untimed inflow (t))
+        flush     sum of the members' flush links (t) = sum_members row 0 (t)
+        release   group flush (t) = group untimed inflow (t-n)  (t >= n),  = initial group row t  (t < n)
+        junction-row / member-row  (`group_rows_recorded`) the same through the per-row values the links record (TimedLink._vals):
+                  each junction of the group passes every row on unchanged; member row r (t+1) = row r+1 (t) - out-links row r+1 + timed in-links row r+1
+    Returns ([(key, what)], stats Counter).  `stats["gshift.check_mismatch"]` > 0 means the Python and the Lean evaluation of the
+    closedness hypothesis differ (a correspondence break, not a property violation).
+    """
+    stats = collections.Counter()
+    out = []
+    comps, links, kinds = net["comps"], net["links"], net["kinds"]
+    nL, T = len(links), len(m.t)
+    cands = duration_groups(net)
+    if not cands:
+        return out, stats
+    nt = genfw.net_tokens(net)
+    nC = len(kinds)
+    checks = [(G, J) + closed_py(net, G, J) for G, J in cands]
+
+    def bits(xs):
+        xs = set(xs)
+        return " ".join("1" if c in xs else "0" for c in range(nC))
+
+    reps = core.drive(["ewf " + nt] + [f"egroupj {nt} {n} {bits(G)} {bits(J)}" for (G, J, n, why) in checks])
+    wf = reps[0] == "true"
+    x0_nonneg = all(v >= 0 for c, rows in enumerate(genfw.snapshot_stock(m, 0)) if kinds[c] != "k" for v in rows)
+    rec = [np.asarray(l.vals, dtype=float) for l in links]
+    for (G, J, n, why), rep in zip(checks, reps[1:]):
+        stats["gshift.groups"] += 1
+        if rep not in ("true", "false") or (rep == "true") != (why is None):
+            stats["gshift.check_mismatch"] += 1
+            continue
+        if why is not None:
+            stats["gshift.hyp_failed." + why] += 1
+            continue
+        Gs, Js = set(G), set(J)
+        jout = [l for l in range(nL) if net["src"][l] in Js]
+        props = {l: np.asarray(links[l].parameter.vals, dtype=float) for l in jout if links[l].parameter is not None}
+        if not wf:
+            stats["gshift.hyp_failed.wf"] += 1
+            continue
+        if not x0_nonneg or not (m.dt > 0):
+            stats["gshift.hyp_failed.initial_stock_negative"] += 1
+            continue
+        R = sum(np.asarray(comps[c]._vals, dtype=float) for c in G)  # n x T: people of the group by row
+        inc = [l for l in range(nL) if net["src"][l] in Gs or net["src"][l] in Js or net["dst"][l] in Gs]
+        if not (np.isfinite(R).all() and all(np.isfinite(rec[l]).all() for l in inc) and all(np.isfinite(v).all() for v in props.values())):
+            stats["gshift.skipped_nonfinite"] += 1  # a step of the model is undefined there (plain junction, proportions sum to 0, people flow in)
+            continue
+        if any((v < 0).any() for v in props.values()):
+            stats["gshift.hyp_failed.negative_proportion"] += 1
+            continue
+        res = any(kinds[j] == "r" for j in J)
+        cat = "resjunction" if res else ("junction" if J else "nojunction")
+        stats["gshift.hyp_held." + cat] += 1
+        stats["gshift.hyp_held"] += 1
+        # what the held groups look like (evidence that the quantifier of the property is reached)
+        for j in J:
+            outs = [l for l in jout if net["src"][l] == j]
+            ins = [l for l in range(nL) if net["dst"][l] == j]
+            stats[f"gshift.junction_outflows_{min(len(outs), 4)}"] += 1
+            if len(ins) >= 2:
+                stats["gshift.multi_inflow"] += 1
+            if any(net["dst"][l] in Js for l in outs):
+                stats["gshift.chain"] += 1
+            ps = sum((props[l] for l in outs if l in props), np.zeros(T))
+            through = sum((rec[l] for l in ins), np.zeros(T))
+            if (through > 0).any():
+                stats["gshift.moved_through_junction"] += 1
+            for nm, cond in (("lt1", ps < 1), ("eq1", ps == 1), ("gt1", ps > 1)):
+                if (cond & (through > 0)).any():
+                    stats["gshift.junction_sum_" + nm + ("_residual" if kinds[j] == "r" else "")] += 1
+        unt = np.zeros(T)
+        for c in G:
+            u = sum((rec[l] for l in range(nL) if net["dst"][l] == c and not net["tlink"][l]), np.zeros(T))
+            unt += np.maximum(u, 0.0)
+        flush = sum((rec[l] for l in range(nL) if net["src"][l] in Gs and net["isflush"][l]), np.zeros(T))
+        tolv = rtol * np.maximum(1.0, np.abs(R).sum(axis=0) + np.abs(unt))  # per time index
+        names = ",".join(str(comps[c].name) for c in G) + ((" + junctions " + ",".join(str(comps[c].name) for c in J)) if J else "")
+        pop = str(comps[G[0]].pop.name)
+        key = {"oracle": "group-shift", "junctions": cat}
+        stats["gshift.steps_checked"] += T - 1
+        found = None
+        if n > 1 and T > 1:
+            d = R[:-1, 1:] - R[1:, :-1]
+            bad = np.abs(d) > np.maximum(tolv[:-1], tolv[1:])[None, :]
+            if bad.any():
+                t = int(np.argmax(bad.any(axis=0)))
+                r = int(np.argmax(bad[:, t]))
+                found = ("rows", f"step {t}->{t + 1}: group row {r} after the step holds {R[r, t + 1]!r} but group row {r + 1} before it held {R[r + 1, t]!r} "
+                                 f"(diff {d[r, t]:.3e}): moves inside the group, directly or through its junctions, must keep everybody's elapsed time")
+        if found is None and T > 1:
+            d = R[n - 1, 1:] - unt[:-1]
+            bad = np.abs(d) > np.maximum(tolv[:-1], tolv[1:])
+            if bad.any():
+                t = int(np.argmax(bad))
+                found = ("last-row", f"step {t}->{t + 1}: the last row of the group holds {R[n - 1, t + 1]!r} but the untimed inflow of its members at index {t} was {unt[t]!r} (diff {d[t]:.3e})")
+        if found is None:
+            d = flush - R[0, :]
+            bad = np.abs(d) > tolv
+            if bad.any():
+                t = int(np.argmax(bad))
+                found = ("flush", f"index {t}: the flush links of the group carry {flush[t]!r} but row 0 of the group holds {R[0, t]!r} (diff {d[t]:.3e})")
+        if found is None:
+            for t in range(T):
+                expect = unt[t - n] if t >= n else R[t, 0] if t < R.shape[0] else 0.0
+                if abs(flush[t] - expect) > max(tolv[t], tolv[max(0, t - n)]):
+                    found = ("release", f"index {t}: the group's timed outflow is {flush[t]!r} but the cohort that " + (f"entered the group at index {t - n} is {expect!r}" if t >= n else f"initially sat in group row {t} is {expect!r}"))
+                    break
+        if found is None:
+            # group_rows_recorded: the same step seen through the per-row values the links record (TimedLink._vals)
+            lv = {l: np.asarray(links[l]._vals, dtype=float) for l in range(nL) if net["tlink"][l] and (net["src"][l] in Gs or net["src"][l] in Js)}
+            if all(v.shape[0] == n for v in lv.values()):
+                for j in J:
+                    vin = sum((lv[l] for l in lv if net["dst"][l] == j), np.zeros((n, T)))
+                    vout = sum((lv[l] for l in lv if net["src"][l] == j), np.zeros((n, T)))
+                    bad = np.abs(vin - vout) > tolv[None, :]
+                    if bad.any():
+                        t = int(np.argmax(bad.any(axis=0)))
+                        r = int(np.argmax(bad[:, t]))
+                        found = ("junction-row", f"index {t}: junction {comps[j].name} of the group receives {vin[r, t]!r} in row {r} but its out-links record {vout[r, t]!r} in that row")
+                        break
+            if found is None and n > 1 and T > 1 and all(v.shape[0] == n for v in lv.values()):
+                for c in G:
+                    X = np.asarray(comps[c]._vals, dtype=float)
+                    vin = sum((lv[l] for l in lv if net["dst"][l] == c), np.zeros((n, T)))
+                    vout = sum((lv[l] for l in lv if net["src"][l] == c), np.zeros((n, T)))
+                    d = X[:-1, 1:] - (X[1:, :-1] - vout[1:, :-1] + vin[1:, :-1])
+                    bad = np.abs(d) > np.maximum(tolv[:-1], tolv[1:])[None, :]
+                    if bad.any():
+                        t = int(np.argmax(bad.any(axis=0)))
+                        r = int(np.argmax(bad[:, t]))
+                        found = ("member-row", f"step {t}->{t + 1}: row {r} of member {comps[c].name} holds {X[r, t + 1]!r} but its row {r + 1} held {X[r + 1, t]!r}, its out-links record {vout[r + 1, t]!r} "
+                                               f"taken from that row and the timed links into it record {vin[r + 1, t]!r} delivered to that row (diff {d[r, t]:.3e})")
+                        break
+        if found is not None:
+            out.append((dict(key, part=found[0]), f"closed duration group [{names}] of population {pop} (n={n} rows, hypotheses of group_step_junctions hold): " + found[1]))
+    return out, stats
+
+
+def apply_group_shift(ctx, m, net, replay, label=None):
+    """run the oracle on one model outside the stream; records counters, hypotheses, violations; returns the stats"""
+    viol, stats = group_shift_oracle(m, net)
+    _record_gshift(ctx, stats)
+    for key, what in viol:
+        ctx.violation({"api": "Model.process", **key}, (f"{label}: " if label else "") + what, replay)
+    return viol, stats
+
+
+def _record_gshift(ctx, stats):
+    for k, v in stats.items():
+        ctx.count(k, v)
+    ctx.hyp_checked += stats.get("gshift.groups", 0)
+    ctx.hyp_held += stats.get("gshift.hyp_held", 0)
+    if stats.get("gshift.check_mismatch"):
+        ctx.brk("correspondence", "closedness hypothesis of a duration group: the Python evaluation and the driver's closedGroupJCheck (egroupj) differ", stage="wf")
+
+
+def install_oracles(ctx):
+    """`engine_corr._run_stream` calls `engine_corr.oracles(m, net)`: add the group-shift oracle, bound to this (sub-)context's counters,
+    so that every model of the stream is checked and a mode-B break of stage balance-timed / update-timed comes with a concrete violation"""
+    base = getattr(engine_corr, "_c05_base_oracles", None) or engine_corr.oracles
+    engine_corr._c05_base_oracles = base
+
+    def oracles_plus(m, net):
+        out, illposed = base(m, net)
+        viol, stats = group_shift_oracle(m, net)
+        _record_gshift(ctx, stats)
+        return out + [(PROPERTY, key, what) for key, what in viol], illposed
+
+    engine_corr.oracles = oracles_plus
+
+
+# ----------------------------------------------------------------------------------------------------------
+# run_groupsj: hand-built closed groups with junctions inside
+# ----------------------------------------------------------------------------------------------------------
+def spec_groupj(D, dt, nsteps, inflow, shape, props, moves, residual=False, back=0.0, start=2000.0):
+    """
+    src --nu0--> t00;  members t00, t01, t02 of the duration group du0 (all flush into k0);  junctions inside the group:
+      'fan'   : t00 --ra1--> g0 --> t01: props[0], t02: props[1] [, t00: props[2]]
+      'chain' : t00 --ra1--> g0 --> g1: props[0], t01: props[1];   g1 --> t01: props[2], t02: props[3]
+      'multi' : t00 --ra1--> g0 <--ra2-- t01;   g0 --> t02: props[0], t00: props[1]
+    residual: the LAST outflow of the last junction is the residual link '>' (its entry in `props` is ignored)
+    back: rate of a direct TimedLink t02 --ra3--> t00
+    """
+    tv = times(start, dt, nsteps)
+    comps = [C("c0", 50.0), C("t00", 0.0), C("t01", 0.0), C("t02", 0.0), C("k0", kind="sink"), C("src", kind="source"), C("g0", kind="junction")]
+    pars = [P("du0", "duration", D, timed=True), P("nu0", "number", series(tv, inflow)), P("ra1", "rate", moves[0]), P("ra9", "rate", 0.1)]
+    trans = [["t00", "k0", "du0"], ["t01", "k0", "du0"], ["t02", "k0", "du0"], ["src", "t00", "nu0"], ["c0", "k0", "ra9"], ["t00", "g0", "ra1"]]
+    if shape == "fan":
+        outs = [("g0", d) for d in ["t01", "t02", "t00"][: len(props)]]
+    elif shape == "chain":
+        comps.append(C("g1", kind="junction"))
+        outs = [("g0", "g1"), ("g0", "t01"), ("g1", "t01"), ("g1", "t02")]
+    elif shape == "multi":
+        pars.append(P("ra2", "rate", moves[1]))
+        trans.append(["t01", "g0", "ra2"])
+        outs = [("g0", "t02"), ("g0", "t00")]
+    else:
+        raise ValueError(shape)
+    for k, (j, d) in enumerate(outs):
+        if residual and k == len(outs) - 1:
+            trans.append([j, d, ">"])
+        else:
+            pars.append(P(f"pr{k}", "proportion", props[k]))
+            trans.append([j, d, f"pr{k}"])
+    if back:
+        pars.append(P("ra3", "rate", back))
+        trans.append(["t02", "t00", "ra3"])
+    return {"comps": comps, "characs": [], "pars": pars, "transitions": trans, "pops": ["pa"], "transfers": [], "settings": [start, start + nsteps * dt, dt], "regime": "c05"}
+
+
+GROUPSJ_LIBRARY = [
+    # (name, shape, props, residual)
+    ("fan2-lt1", "fan", [0.5, 0.3], False),
+    ("fan2-eq1", "fan", [0.25, 0.75], False),
+    ("fan2-gt1", "fan", [0.9, 0.6], False),
+    ("fan3-lt1", "fan", [0.2, 0.2, 0.2], False),
+    ("fan3-gt1", "fan", [1.0, 1.0, 1.0], False),
+    ("fan2-residual-lt1", "fan", [0.4, None], True),
+    ("fan3-residual-gt1", "fan", [0.7, 0.6, None], True),
+    ("chain-lt1", "chain", [0.3, 0.3, 0.5, 0.3], False),
+    ("chain-gt1-residual", "chain", [1.5, 0.5, 0.4, None], True),
+    ("multi-lt1", "multi", [0.5, 0.25], False),
+    ("multi-residual", "multi", [0.35, None], True),
+]
+
+
+def groupsj_case(rr, i):
+    name, shape, props, residual = GROUPSJ_LIBRARY[i % len(GROUPSJ_LIBRARY)]
+    variant = (i // len(GROUPSJ_LIBRARY)) % 4
+    dt = rr.choice([1.0, 0.5, 0.25, 0.2, 0.1, 1 / 12, 0.3])
+    k = rr.choice([2, 3, 3, 4, 5, 6])
+    D = rr.choice([k * dt, (k - 0.5) * dt, k * dt])
+    if i % 5 == 2:  # the float hazards: D = k*dt "up to rounding error" (3*0.1/0.1 = 3.0000000000000004, 5/12 / (1/12) = 5.000000000000001)
+        dt, k, D = rr.choice([(0.1, 3, 3 * 0.1), (1 / 12, 5, 5 / 12), (0.1, 7, 7 * 0.1)])
+    elif i % 11 == 7:  # a group whose duration is shorter than one step: a single row
+        k, D = 1, 0.5 * dt
+    if variant:  # later rounds: random proportions in the same regime
+        scale_ = rr.choice([0.5, 1.0, 2.0, rr.random() * 3])
+        props = [None if p is None else round(p * scale_, 4) for p in props]
+    nsteps = rr.randint(k + 4, 2 * k + 8)
+    return {"name": name, "shape": shape, "props": props, "residual": residual, "D": D, "dt": dt, "nsteps": nsteps,
+            "inflow": [rr.choice([0.0, 10.0, round(rr.random() * 100, 2)]) for _ in range(nsteps + 1)],
+            "moves": [rr.choice([0.2 / dt, 0.5 / dt, 0.9 / dt, 1.0 / dt, 3.0 / dt]), rr.choice([0.3 / dt, 0.7 / dt])], "back": rr.choice([0.0, 0.0, 0.4 / dt])}
+
+
+def check_groupj(ctx, case, mode_b=True):
+    spec = spec_groupj(case["D"], case["dt"], case["nsteps"], case["inflow"], case["shape"], case["props"], case["moves"], residual=case["residual"], back=case.get("back", 0.0))
+    replay = {"how": "groupj", "case": case}
+    ctx.count("groupsj." + case["shape"])
+    try:
+        m = genfw.run(spec, capture_preflush=True)
+    except Exception as e:
+        cause = repr(e.__cause__)[:160] if e.__cause__ is not None else ""
+        ctx.case({"oracle": "groupj", "name": case["name"], "dt": case["dt"], "D": case["D"]}, nontrivial=True)
+        ctx.violation({"api": "Model.process", "oracle": "group-shift", "part": "raises", "junctions": "resjunction" if case["residual"] else "junction"},
+                      f"closed duration group with junctions inside ({case['name']}, duration {case['D']!r}, dt={case['dt']!r}): the model cannot be built/run: {type(e).__name__}: {str(e)[:120]} {cause}", replay)
+        return
+    net = genfw.extract_net(m)
+    viol, stats = apply_group_shift(ctx, m, net, replay, label=f"library group {case['name']}")
+    n = max(net["nrows"])
+    ctx.case({"oracle": "groupj", "name": case["name"], "props": case["props"], "n": n, "dt": case["dt"], "moves": case["moves"]},
+             nontrivial=n > 1 and stats.get("gshift.moved_through_junction", 0) > 0, sample={"name": case["name"], "n": n, "props": case["props"]})
+    if not stats.get("gshift.hyp_held"):
+        why = [k for k in stats if k.startswith("gshift.hyp_failed") or k.startswith("gshift.skipped")]
+        ctx.brk("correspondence", f"library group {case['name']}: the hypotheses of group_step_junctions do not hold on the net the implementation built: {why}", stage="wf", case=case)
+    if mode_b:
+        if core.drive([f"ewf {genfw.net_tokens(net)}"])[0] != "true":
+            ctx.brk("correspondence", f"library group {case['name']}: extracted net fails wfCheck", stage="wf", case=case)
+            return
+        for b in engine_corr.compare_trace(ctx, spec, m, net, case["name"]):
+            if PROPERTY in engine_corr.STAGE_PROPS.get(b["stage"], set()):
+                ctx.disagreements_checked += 1
+                ctx.brk("correspondence", f"library group {case['name']}: mode B {b['stage']}: {b['what']}", stage=b["stage"], case=case, spec=spec)
+
+
+def run_groupsj(ctx, n):
+    r = ctx.rng
+    for i in range(n):
+        rr = _random.Random(r.randrange(1 << 30))
+        check_groupj(ctx, groupsj_case(rr, i))
+
+
+def focus_gshift(r):
+    """generated models whose duration groups are closed (every transition out of a timed compartment stays in its group) and have
+    junctions of the rich family inside"""
+    feats = focus(r)
+    feats.update({"group_size": r.choice([1, 2, 2, 3, 3]), "group_junction": r.choice([0.5, 1.0, 1.0]), "gj_rich": 0.85, "stay_in_group": r.choice([1.0, 1.0, 0.8]),
+                  "junctions": r.choice([0, 0, 1]), "nsteps": r.randint(8, 18)})
+    if isinstance(feats.get("duration"), list) and r.random() < 0.6:
+        feats["duration"] = feats["duration"][0]  # one length for all populations (a group that spans populations of different length is not closed)
+    return feats
+
+
+def run_gshift(ctx, n):
+    """the group-shift oracle (and mode B) on generated models weighted toward closed groups with junctions inside"""
+    engine_corr.run_stream(ctx, PROPERTY, n, regimes=("calibrated", "boundary", "calibrated", "extreme"), focus=focus_gshift, workers=1)
 
 
 # ----------------------------------------------------------------------------------------------------------
@@ -646,12 +1052,22 @@ def check_release(ctx, m, net, case_key, spec):
         if any(isinstance(l, M.TimedLink) for l in c.inlinks):
             ctx.count("release.skipped_timed_inflow")
             continue
+        replay = {"how": "release", "spec": spec, "case": case_key, "comp": [c.pop.name, c.name]}
+        pv_ = np.asarray(c.parameter.vals, dtype=float)
+        if (c.parameter.fcn_str and c.parameter._is_dynamic) or not np.all(pv_ == pv_[0]):
+            # outside the property's domain (a duration is constant in time) -- but the implementation ACCEPTED it: its own guard
+            # ("Duration parameter value cannot vary over time") looks at the values before a state-dependent function has been evaluated
+            ctx.count("release.duration_varies_in_time")
+            Dpre = c._vals.shape[0] * m.dt
+            ctx.violation(dict(DYN_KEY), f"TimedCompartment {c.name} ({c.pop.name}): its duration parameter {c.parameter.name} = '{c.parameter.fcn_str}' depends on the model state and takes the values "
+                          f"{[float(v) for v in pv_[:3]]}... during the run, yet the model was built without complaint: {c._vals.shape[0]} rows (about {Dpre:.4g} years, from the databook value) were allocated before the function "
+                          f"was ever evaluated, so the function is silently ignored (TimedCompartment.preallocate asserts 'Duration parameter value cannot vary over time' on values that are not computed yet)", replay)
+            continue
         D = impl_duration(c)
         n, amb = spec_rows_of(D, m.dt)
         if amb:
             ctx.ambiguous += 1
             continue
-        replay = {"how": "release", "spec": spec, "case": case_key, "comp": [c.pop.name, c.name]}
         if c._vals.shape[0] != n:
             kcls, _ = classify_quotient(D, m.dt)
             ctx.violation(dict(ROWS_KEY) if kcls.startswith("float_dust") else {"api": "TimedCompartment.preallocate", "case": kcls},
@@ -697,6 +1113,7 @@ def run_release(ctx, n):
         if any(net["tlink"][l] and net["kinds"][net["dst"][l]] == "t" and net["lrows"][l] != net["nrows"][net["dst"][l]] for l in range(len(net["links"]))):
             ctx.count("has.rows_mismatch_link")
         check_release(ctx, m, net, key, spec)
+        apply_group_shift(ctx, m, net, {"how": "gshift", "spec": spec, "case": key})
 
 
 # ----------------------------------------------------------------------------------------------------------
@@ -788,15 +1205,18 @@ def rejects_to_violations(ctx):
         ctx.violation(dict(ASSIGN_KEY, case="generated: " + mk), f"generated framework accepted by validation, but the model cannot be built/run: {x['type']}: {x['msg'][:160]} {cause}", {"how": "assign", "spec": x["spec"], "label": "generated"})
 
 
-COUNTS = {"keyring": (14, 240), "groups": (9, 150), "release": (16, 480), "stream": (30, 1200)}
+COUNTS = {"keyring": (14, 240), "groups": (9, 150), "groupsj": (13, 220), "release": (16, 480), "gshift": (18, 480), "stream": (30, 1200)}
 SHARDS = 12
 
 
 def _work(ctx, counts):
+    install_oracles(ctx)  # this (sub-)context's counters receive the group-shift statistics of every model of the streams
     run_keyring(ctx, counts["keyring"])
     run_groups(ctx, counts["groups"])
+    run_groupsj(ctx, counts["groupsj"])
     run_release(ctx, counts["release"])
-    engine_corr.run_stream(ctx, PROPERTY, counts["stream"], regimes=("calibrated", "boundary", "extreme"), focus=focus)
+    run_gshift(ctx, counts["gshift"])
+    engine_corr.run_stream(ctx, PROPERTY, counts["stream"], regimes=("calibrated", "boundary", "extreme"), focus=focus, workers=1)
 
 
 def _shard(args):
@@ -899,12 +1319,39 @@ def replay(ctx, data):
     elif how == "assign":
         check_assign(c2, rp["spec"], rp.get("label", "replay"))
         bad = bool(c2.violations)
+    elif how == "groupj":
+        check_groupj(c2, rp["case"])
+        for b in c2.breaks:
+            print("break:", b["what"])
+        bad = bool(c2.violations) or bool(c2.breaks)
+    elif how == "gshift":
+        try:
+            m = genfw.run(rp["spec"])
+        except Exception as e:
+            print(f"model refused: {type(e).__name__}: {str(e)[:200]}")
+            print("FAILS")
+            return 1
+        apply_group_shift(c2, m, genfw.extract_net(m), rp)
+        bad = bool(c2.violations)
     elif how == "release":
-        m = genfw.run(rp["spec"])
+        try:
+            m = genfw.run(rp["spec"])
+        except Exception as e:
+            # the recorded model is no longer accepted: that settles a violation that was about ACCEPTING it (state-dependent duration); any other recorded model is valid and must run
+            refused_ok = (data.get("key") or {}).get("case") == DYN_KEY["case"]
+            print(f"model refused: {type(e).__name__}: {str(e)[:200]}")
+            print("passes" if refused_ok else "FAILS")
+            return 0 if refused_ok else 1
         check_release(c2, m, genfw.extract_net(m), rp["case"], rp["spec"])
         bad = bool(c2.violations)
     elif "spec" in rp:  # from engine_corr.run_stream
-        m = genfw.run(rp["spec"], capture_preflush=True)
+        install_oracles(c2)
+        try:
+            m = genfw.run(rp["spec"], capture_preflush=True)
+        except Exception as e:
+            print(f"model refused: {type(e).__name__}: {str(e)[:200]}")
+            print("FAILS")
+            return 1
         net = genfw.extract_net(m)
         brs = engine_corr.compare_trace(c2, rp["spec"], m, net, rp.get("case")) + engine_corr.compare_flush(c2, m, net)
         ors, _ = engine_corr.oracles(m, net)
